@@ -671,40 +671,38 @@ pub fn check_c08(case: &RCase, log: &RunLog, m: &Modelled) -> Vec<Violation> {
     match first_final_failure(m, log) {
         Some((p, ai)) => {
             let failing = &m.attempts[ai];
-            let batch_of = |a: &Attempt| log.dispatched.iter().find(|d| d.scenario == a.scenario && d.retries.map(|r| (r.current, r.left)) == a.retries).map(|d| d.batch);
-            let fb = batch_of(failing);
-            let mut late = 0usize;
-            for a in &m.attempts {
-                if let Some(s) = a.started {
-                    if s > p {
-                        late += 1;
-                        if batch_of(a) != fb || fb.is_none() {
-                            out.push(v(
-                                "C08/dispatch-after-failure",
-                                format!("attempt {} {:?} Started at #{s}, after the first final failure ({} {:?}) Finished at #{p}, and was not dispatched together with it (batches {:?} vs {fb:?})", a.scenario, a.retries, failing.scenario, failing.retries, batch_of(a)),
-                            ));
-                        }
+            let disp_of = |a: &Attempt| log.dispatched.iter().find(|d| d.scenario == a.scenario && d.retries.map(|r| (r.current, r.left)) == a.retries);
+            // H3: the moment the main loop observed a final failure; nothing may be dispatched afterwards.
+            let mut cut: Option<(u64, &Attempt)> = None;
+            for a in m.attempts.iter().filter(|a| a.is_final() && a.finished.is_some() && attempt_failed_observed(a, log)) {
+                if let Some(obs) = disp_of(a).and_then(|d| log.observed.iter().find(|o| o.id == d.id)) {
+                    if cut.is_none_or(|c| obs.next_batch < c.0) {
+                        cut = Some((obs.next_batch, a));
                     }
                 }
             }
+            match cut {
+                None => out.push(v("C08/failure-not-observed", format!("final failure of {} {:?} was never observed by the main loop", failing.scenario, failing.retries))),
+                Some((n, a)) => {
+                    if let Some(d) = log.dispatched.iter().find(|d| d.batch >= n) {
+                        out.push(v(
+                            "C08/dispatch-after-failure",
+                            format!("attempt {} {:?} was dispatched (batch {}) after the main loop had observed the final failure of {} {:?} (next batch then: {n})", d.scenario, d.retries, d.batch, a.scenario, a.retries),
+                        ));
+                    }
+                }
+            }
+            // stream level: attempts that begin after the failure's Finished were dispatched
+            // before it was observed, hence together with still running ones: fewer than the limit.
+            let late = m.attempts.iter().filter(|a| a.started.is_some_and(|s| s > p)).count();
             if let Some(k) = case.effective_conc() {
                 if late >= k && late > 0 {
-                    out.push(v("C08/too-many-late-starts", format!("{late} attempts began after the first final failure, limit {k}")));
+                    out.push(v("C08/too-many-late-starts", format!("{late} attempts began after the first final failure's Finished (#{p}), limit {k}")));
                 }
             }
-            // H2: every dispatched batch after the failing attempt's Finished... (needs no shared clock):
-            // an attempt dispatched in a later batch than every attempt that had started before p is a late dispatch.
-            let max_batch_before: Option<u64> = m.attempts.iter().filter(|a| a.started.is_some_and(|s| s < p)).filter_map(batch_of).max();
-            if let Some(mb) = max_batch_before {
-                for dsp in &log.dispatched {
-                    if dsp.batch > mb {
-                        let started_before = m.attempts.iter().any(|a| a.scenario == dsp.scenario && a.retries == dsp.retries.map(|r| (r.current, r.left)) && a.started.is_some_and(|s| s < p));
-                        if !started_before {
-                            out.push(v("C08/dispatch-after-failure", format!("H2: attempt {} {:?} dispatched in batch {} (> {mb}) and not started before the failure", dsp.scenario, dsp.retries, dsp.batch)));
-                            break;
-                        }
-                    }
-                }
+            let late_batches: BTreeSet<u64> = m.attempts.iter().filter(|a| a.started.is_some_and(|s| s > p)).filter_map(|a| disp_of(a).map(|d| d.batch)).collect();
+            if late_batches.len() > 1 {
+                out.push(v("C08/dispatch-after-failure", format!("attempts of {} different batches {late_batches:?} began after the first final failure's Finished: the later batch was dispatched after it", late_batches.len())));
             }
         }
         None => {
